@@ -81,6 +81,7 @@ type State struct {
 	steps   int
 	keccaks []keccakApp
 	sigs    []sigReg
+	pcH1, pcH2 uint64
 }
 
 type keccakApp struct {
@@ -126,6 +127,7 @@ func (st *State) clone() *State {
 	n.sigs = append([]sigReg(nil), st.sigs...)
 	n.status = st.status
 	n.steps = st.steps
+	n.pcH1, n.pcH2 = st.pcH1, st.pcH2
 	n.frames = make([]*Frame, len(st.frames))
 	for i, f := range st.frames {
 		nf := *f
@@ -269,6 +271,8 @@ func (st *State) assume(t *Term) {
 		return
 	}
 	st.pc = append(st.pc, t)
+	st.pcH1 = st.pcH1*1000003 ^ uint64(t.id)*0x9E3779B97F4A7C15
+	st.pcH2 = (st.pcH2+uint64(t.id))*0xff51afd7ed558ccd ^ (st.pcH2 >> 29)
 }
 
 func bigOf(v int64) *big.Int { return big.NewInt(v) }
